@@ -117,6 +117,60 @@ def rule_any(ctx: Ctx):
                 rep.check(ok, "C15.any", e.loc(), "every transition of the event is offered to its source state for expansion", tl.key, norm_stmt(e.node))
 
 
+def rule_copy(ctx: Ctx, rule: str = "C15.any"):
+    """The per-state copies made for from_.any() keep every meaning-bearing field of each callback spec
+    (guard polarity, event scoping, priority ...)."""
+    rep = ctx.rep
+    fn = ctx.fn("Transition._copy_with_args")
+    spec_init = ctx.fn("CallbackSpec.__init__")
+    a = spec_init.node.args
+    fields = [x.arg for x in a.posonlyargs + a.args + a.kwonlyargs if x.arg != "self"]
+    n = 0
+    for p in ctx.paths(fn, inline=None, exc_edges="none", unroll=1):
+        evs = p.events
+        its = [e for e in evs if e.kind == "iter" and e.x.get("loop") == "for"]
+        if not its:
+            continue
+        rep.check(show(its[0].term) == "self._specs", rule, its[0].loc(), "every callback spec of the placeholder transition is carried over", fn.key,
+                  norm_stmt(its[0].node))
+        spec = show(its[0].x["elem"])
+        adds = [e for e in p.calls() if isinstance(e.term.func, ast.Attribute) and e.term.func.attr in ("add", "_add") and e.idx > its[0].idx]
+        if not adds:
+            rep.violation(rule, its[0].loc(), "the copy of an any() transition registers none of the original callbacks", fn.key, norm_stmt(its[0].node))
+            continue
+        n += 1
+        e = adds[0]
+        first = expand1(e.term.args[0], evs) if e.term.args else None
+        if isinstance(first, ast.Call) and show(first.func) in ("deepcopy", "copy.deepcopy", "copy", "copy.copy") and show(first.args[0]) == spec:
+            rep.ok(rule, e.loc(), "each spec is copied whole (all fields, incl. expected_value and the event condition)")
+            continue
+        if show(e.term.args[0]) == spec:
+            rep.ok(rule, e.loc(), "each spec object is carried over as is")
+            continue
+        given = {}
+        names = fields
+        for i, arg in enumerate(e.term.args):
+            if i < len(names):
+                given[names[i]] = show(arg)
+        for kw in e.term.keywords:
+            if kw.arg:
+                given[kw.arg] = show(kw.value)
+        missing = [f for f in fields if given.get(f) != f"{spec}.{f}"]
+        rep.check(not missing, rule, e.loc(), "a rebuilt spec keeps every field of the original (func, group, convention/event flags, condition, "
+                  "priority, expected_value)", fn.key, norm_stmt(e.node), missing=missing)
+        recv = xshow(e.term.func.value, evs)
+    rep.floor(rule, "spec-copy sites in _copy_with_args", n, 1)
+    for p in ctx.paths(fn, inline=None, exc_edges="none", unroll=0):
+        ctor = [e for e in p.calls() if show(e.term.func) == "Transition"]
+        if ctor:
+            kw = {k.arg: xshow(k.value, p.events) for k in ctor[0].term.keywords}
+            ok = kw.get("source", "").startswith("kwargs.pop('source'") and kw.get("target", "").startswith("kwargs.pop('target'") and \
+                kw.get("internal", "").startswith("kwargs.pop('internal'") and kw.get("event", "").startswith("kwargs.pop('event'")
+            rep.check(ok, rule, ctor[0].loc(), "the copy takes source/target/event/internal from the overrides or else from the original", fn.key,
+                      norm_stmt(ctor[0].node))
+        break
+
+
 def rule_or(ctx: Ctx):
     rep = ctx.rep
     fn = ctx.fn("TransitionList.__or__")
@@ -272,4 +326,4 @@ def rule_enum(ctx: Ctx):
             rep.check(ok, "C15.enum", sfd.loc(), "each (id, state) of a States collection is added under its id", sfd.key, calls[0].show())
 
 
-RULES = [rule_tofrom, rule_any, rule_or, rule_events, rule_enum]
+RULES = [rule_tofrom, rule_any, rule_copy, rule_or, rule_events, rule_enum]
